@@ -147,6 +147,7 @@ package kmipserver
 // batch execution (C09), handler containment (C08), placeholder scope (C15)
 
 //@ ghostvar handlerCalls int
+//@ ghostvar recovers int
 
 //@ spec holder(ctx context.Context) *batchData = dyn(ctxvalue(ctx, ctxBatch), *batchData)
 //@ spec failed(bi kmip.ResponseBatchItem) bool = bi.ResultStatus == kmip.ResultStatusOperationFailed
@@ -178,8 +179,10 @@ package kmipserver
 //@   ensures handlerCalls == old(handlerCalls) || handlerCalls == old(handlerCalls)+1
 //@   ensures handlerCalls == old(handlerCalls)+1 ==> handlerCtx == ctx
 //@   ensures bi.MessageExtension != nil && bi.MessageExtension.CriticalityIndicator ==> handlerCalls == old(handlerCalls) && err != nil
+//@   ensures recovers == old(recovers) || recovers == old(recovers)+1
+//@   ensures recovers == old(recovers)+1 ==> failed(*resp)
 //@   modifies holder(ctx).idPlaceholder
-//@   ghostmod handlerCalls, handlerCtx
+//@   ghostmod handlerCalls, handlerCtx, recovers
 //@   ghost itemCalls = old(itemCalls) + 1
 //@   ghost itemCtx = ctx
 //@   ghost itemItem = bi
